@@ -159,6 +159,9 @@ func (c *Ctx) correspond(stage string, srcs []string) int {
 				r.Mismatch(stage, s, resp[i], impl.s+" "+impl.msg)
 			}
 			c.refCompare(stage, s)
+			if impl.tree != nil {
+				c.eraseCheck(s, impl.tree)
+			}
 		}
 	}()
 	select {
